@@ -145,11 +145,17 @@ structure ParenScan where
   right : Option Nat := none
   nl : Nat := 0
   nr : Nat := 0
+  inQuotes : Bool := false         -- (repair D22) between double quotes
+  escaped : Bool := false          -- (repair D22) the previous character was an escaping backslash
 
 def parenScan : Text → Nat → ParenScan → ParenScan
   | [], _, st => st
   | c :: rest, i, st =>
-    if c == '(' then parenScan rest (i + 1) { st with left := st.left.orElse (fun _ => some i), nl := st.nl + 1 }
+    if st.escaped then parenScan rest (i + 1) { st with escaped := false }
+    else if st.inQuotes then parenScan rest (i + 1) { st with inQuotes := !(c == '"') }
+    else if c == '"' then parenScan rest (i + 1) { st with inQuotes := true }
+    else if c == '\\' then parenScan rest (i + 1) { st with escaped := true }
+    else if c == '(' then parenScan rest (i + 1) { st with left := st.left.orElse (fun _ => some i), nl := st.nl + 1 }
     else if c == ')' then parenScan rest (i + 1) { st with right := some i, nr := st.nr + 1 }
     else parenScan rest (i + 1) st
 
@@ -449,7 +455,8 @@ def parseTerm (po : POps) : Nat → Text → Res Term
       -- after repair D19: escaping backslashes are removed the way parse_arguments removes them
       let u := unescape s
       -- after repair D21: stray quotes are rejected as in parse_arguments and parse_linked_list
-      (checkQuotes s u.2).bind fun _ => makeTerm po f u.1 fl.1 fl.2.1 fl.2.2
+      let s2 := trim u.1
+      (checkQuotes s2 u.2).bind fun _ => makeTerm po f s2 fl.1 fl.2.1 fl.2.2
 /-- `make_term` -/
 def makeTerm (po : POps) : Nat → Text → Bool → Bool → Bool → Res Term
   | 0, _, _, _, _ => .oof
